@@ -139,3 +139,90 @@ Proof.
       * rewrite (skip_instance_ws _ c _ Es). apply (IH (S f) Hr).
       * rewrite skip_instance_S. rewrite (skip_ws_nonspace _ _ Es). rewrite H1, H2, H3, H4. apply (IH f Hr).
 Qed.
+
+(* ---------------- ReadTokenSeparator ---------------- *)
+Lemma read_token_separator_S f l : read_token_separator (S f) l =
+    match skip_ws l with
+    | c :: r =>
+      if c =? SLASH then
+        match read_comment (c :: r) with
+        | Some r' => read_token_separator f r'
+        | None => []
+        end
+      else if c =? BSLASH then read_token_separator f (read_pcd (c :: r))
+      else c :: r
+    | [] => []
+    end.
+Proof. cbn [read_token_separator]. destruct (skip_ws l); reflexivity. Qed.
+
+Lemma no_close_skip_ws txt : no_close txt = true -> no_close (skip_ws txt) = true.
+Proof.
+  induction txt as [|a t IH]; intros H; [reflexivity|].
+  cbn [skip_ws]. destruct (is_space a); [|exact H].
+  apply IH. destruct t as [|b t']; [reflexivity|].
+  cbn [no_close] in H. apply andb_true_iff in H. exact (proj2 H).
+Qed.
+
+Lemma skip_ws_app_nonspace txt x k : is_space x = false -> skip_ws (txt ++ x :: k) = skip_ws txt ++ x :: k.
+Proof.
+  intros Hx. induction txt as [|a t IH]; cbn [app skip_ws].
+  - rewrite Hx. reflexivity.
+  - destruct (is_space a); [exact IH|reflexivity].
+Qed.
+
+(* any run of white space and comments is skipped, and nothing of the token after it *)
+Lemma read_token_separator_seps pairs : forall wsf c rest f,
+  seps_ok (pairs, wsf) = true -> is_space c = false -> (c =? SLASH) = false -> (c =? BSLASH) = false ->
+  read_token_separator (S (length pairs + f)) (seps_text (pairs, wsf) ++ c :: rest) = c :: rest.
+Proof.
+  induction pairs as [|[ws txt] ps IH]; intros wsf c rest f Hok Hc Hs Hb.
+  - unfold seps_ok in Hok. cbn [fst snd forallb andb] in Hok.
+    unfold seps_text. cbn [fst snd flat_map app length Nat.add]. rewrite read_token_separator_S.
+    rewrite (skip_ws_spaces _ _ Hok), (skip_ws_nonspace _ _ Hc). rewrite Hs, Hb. reflexivity.
+  - unfold seps_ok in Hok. cbn [fst snd forallb] in Hok.
+    apply andb_true_iff in Hok. destruct Hok as [H1 Hwf].
+    apply andb_true_iff in H1. destruct H1 as [Hp Hps].
+    apply andb_true_iff in Hp. destruct Hp as [Hws Htxt].
+    unfold seps_text. cbn [fst snd flat_map length Nat.add].
+    rewrite read_token_separator_S. rewrite <- !app_assoc. rewrite (skip_ws_spaces _ _ Hws).
+    change ((SLASH :: STAR :: txt ++ [STAR; SLASH]) ++ ?m) with (SLASH :: STAR :: ((txt ++ [STAR; SLASH]) ++ m)).
+    rewrite skip_ws_nonspace by reflexivity.
+    change (SLASH =? SLASH) with true. cbv iota.
+    unfold read_comment. change (STAR =? STAR) with true. cbv iota.
+    rewrite <- app_assoc. change ([STAR; SLASH] ++ ?m) with (STAR :: SLASH :: m).
+    rewrite (skip_ws_app_nonspace txt STAR _ eq_refl).
+    rewrite (comment_end_closes _ _ (no_close_skip_ws _ Htxt)).
+    assert (Hok' : seps_ok (ps, wsf) = true).
+    { unfold seps_ok. cbn [fst snd]. rewrite Hps, Hwf. reflexivity. }
+    specialize (IH wsf c rest f Hok' Hc Hs Hb). unfold seps_text in IH. cbn [fst snd] in IH.
+    rewrite <- app_assoc in IH. exact IH.
+Qed.
+
+Lemma read_token_separator_more f : forall l x, read_token_separator f l = x ->
+  (match x with c :: _ => is_space c = false /\ (c =? SLASH) = false /\ (c =? BSLASH) = false | [] => False end) ->
+  read_token_separator (S f) l = x.
+Proof.
+  induction f as [|f IH]; intros l x H Hx.
+  - cbn [read_token_separator] in H. subst x. destruct l as [|c r]; [contradiction|].
+    destruct Hx as (A & B & C). rewrite read_token_separator_S. rewrite (skip_ws_nonspace _ _ A), B, C. reflexivity.
+  - rewrite read_token_separator_S in H. rewrite read_token_separator_S.
+    destruct (skip_ws l) as [|c r]; [subst x; contradiction|].
+    destruct (c =? SLASH).
+    + destruct (read_comment (c :: r)) as [r'|]; [|subst x; contradiction]. apply IH; assumption.
+    + destruct (c =? BSLASH); [apply IH; assumption|exact H].
+Qed.
+
+Theorem token_separator_skips s c rest :
+  seps_ok s = true -> is_space c = false -> (c =? SLASH) = false -> (c =? BSLASH) = false ->
+  token_separator (seps_text s ++ c :: rest) = c :: rest.
+Proof.
+  destruct s as [pairs wsf]. intros Hok Hc Hs Hb. unfold token_separator.
+  pose proof (seps_pairs_length (pairs, wsf)) as Hl. cbn [fst] in Hl.
+  set (n := length (seps_text (pairs, wsf) ++ c :: rest)).
+  assert (Hn : (length pairs <= n)%nat) by (unfold n; rewrite app_length; lia).
+  pose proof (read_token_separator_seps pairs wsf c rest 0 Hok Hc Hs Hb) as H0. rewrite Nat.add_0_r in H0.
+  assert (G : forall k, read_token_separator (S (length pairs) + k) (seps_text (pairs, wsf) ++ c :: rest) = c :: rest).
+  { induction k as [|k IHk]; [rewrite Nat.add_0_r; exact H0|].
+    rewrite Nat.add_succ_r. apply read_token_separator_more; [exact IHk|]. repeat split; assumption. }
+  replace (S n) with (S (length pairs) + (n - length pairs))%nat by lia. apply G.
+Qed.
